@@ -180,6 +180,9 @@ BENIGN = [
     {"id": "B-flip-all-comparisons", "transform": "flip_compares"},
     {"id": "B-swap-all-if-arms", "transform": "swap_if_arms"},
     {"id": "B-swap-all-conditional-expressions", "transform": "swap_ifexp"},
+    {"id": "B-commute-all-products", "transform": "commute_mult"},
+    {"id": "B-reverse-all-keyword-arguments", "transform": "reverse_keywords"},
+    {"id": "B-return-through-temporaries", "transform": "return_temporaries"},
     {"id": "B-alif-rebinding-flag", "edits": [E("neural/neurons/linear.py", "        if adapt or (adapt is None and self.training):", "        adapt = adapt or (adapt is None and self.training)\n        if adapt:", 2)]},
     {"id": "B-helper-commuted", "edits": [E(INFRA, "return (pointer - int(offset)) % size", "return (-int(offset) + pointer) % size")]},
     {"id": "B-push-temp", "edits": [E(INFRA, "        self.write(obs, offset=0, inplace=inplace)\n        self.incr(1)", "        zero = 0\n        self.write(obs, offset=0, inplace=inplace)\n        _ = self.incr(1)")]},
